@@ -182,7 +182,7 @@ template <class Def, class Read> static void run_fixed(const char* name, const s
 int main(int argc, char** argv) {
    vf::init(argc, argv);
    if (vf::replaying()) { vf::ctx().only = strtoll(vf::replay_case().c_str(), nullptr, 10); vf::ctx().have_replay = false; }
-   const int maxlen = vf::thorough() ? 4 : 3;
+   const int maxlen = vf::deep() ? 5 : vf::thorough() ? 4 : 3;
    const std::vector<std::string> ia{"0", "1", "2", "7"}; const std::vector<int> i1{4}, i2{4, 2};
    run_kind<std::vector<int>, int>("vector<int>", BACK, true, false, ia, i1, i2, maxlen, false);
    run_kind<std::deque<int>, int>("deque<int>", BACK, true, false, ia, i1, i2, maxlen, false);
